@@ -31,6 +31,7 @@ type GenDesc struct {
 	B   []bool    `json:"b,omitempty"`    // flags
 	P   []float64 `json:"p,omitempty"`    // flattened point list (x y [z]) for paths / point sets
 	P2  []float64 `json:"p2,omitempty"`   // second point list (stencil shapes)
+	O   []bool    `json:"opt,omitempty"`  // which per-element OPTIONAL fields are set (cube faces, cylinder UV parts, per-point UVs); nil: all
 	M   string    `json:"mode,omitempty"` // how the point lists were drawn (documentation only; the lists are explicit)
 }
 
@@ -67,6 +68,20 @@ func getf(g GenDesc, k int, d float64) float64 {
 }
 func getb(g GenDesc, k int) bool { return k < len(g.B) && g.B[k] }
 
+// geto: is the k-th optional element set (no mask: every one is)
+func geto(g GenDesc, k int) bool { return g.O == nil || (k < len(g.O) && g.O[k]) }
+
+func cubeUVs(g GenDesc) *primitives.CubeUVs {
+	d := primitives.DefaultCubeUVs()
+	faces := []**primitives.StripUVs{&d.Top, &d.Bottom, &d.Left, &d.Right, &d.Front, &d.Back}
+	for k, f := range faces {
+		if !geto(g, k) {
+			*f = nil
+		}
+	}
+	return d
+}
+
 // RunGenerator calls the real generator.
 func RunGenerator(g GenDesc) (out modeling.Mesh, class string, msg string) {
 	defer func() {
@@ -88,13 +103,13 @@ func RunGenerator(g GenDesc) (out modeling.Mesh, class string, msg string) {
 	case "cube_welded":
 		c := primitives.Cube{Height: getf(g, 0, 1), Width: getf(g, 1, 1), Depth: getf(g, 2, 1)}
 		if getb(g, 0) {
-			c.UVs = primitives.DefaultCubeUVs()
+			c.UVs = cubeUVs(g)
 		}
 		out = c.Welded()
 	case "cube_quads":
 		c := primitives.Cube{Height: getf(g, 0, 1), Width: getf(g, 1, 1), Depth: getf(g, 2, 1)}
 		if getb(g, 0) {
-			c.UVs = primitives.DefaultCubeUVs()
+			c.UVs = cubeUVs(g)
 		}
 		out = c.UnweldedQuads()
 	case "quad":
@@ -112,10 +127,15 @@ func RunGenerator(g GenDesc) (out modeling.Mesh, class string, msg string) {
 	case "cylinder":
 		c := primitives.Cylinder{Sides: geti(g, 0), Height: getf(g, 0, 1), Radius: getf(g, 1, 1), NoTop: getb(g, 0), NoBottom: getb(g, 1)}
 		if getb(g, 2) {
-			c.UVs = &primitives.CylinderUVs{
-				Top:    &primitives.CircleUVs{Center: vector2.New(0.5, 0.5), Radius: 0.5},
-				Bottom: &primitives.CircleUVs{Center: vector2.New(0.5, 0.5), Radius: 0.5},
-				Side:   &primitives.StripUVs{Start: vector2.New(0., 0.), End: vector2.New(0., 1.), Width: 1},
+			c.UVs = &primitives.CylinderUVs{}
+			if geto(g, 0) {
+				c.UVs.Top = &primitives.CircleUVs{Center: vector2.New(0.5, 0.5), Radius: 0.5}
+			}
+			if geto(g, 1) {
+				c.UVs.Bottom = &primitives.CircleUVs{Center: vector2.New(0.5, 0.5), Radius: 0.5}
+			}
+			if geto(g, 2) {
+				c.UVs.Side = &primitives.StripUVs{Start: vector2.New(0., 0.), End: vector2.New(0., 1.), Width: 1}
 			}
 		}
 		out = c.ToMesh()
@@ -126,8 +146,11 @@ func RunGenerator(g GenDesc) (out modeling.Mesh, class string, msg string) {
 		eps := make([]extrude.ExtrusionPoint, len(path))
 		for i, p := range path {
 			eps[i] = extrude.ExtrusionPoint{Point: p, Thickness: getf(g, 0, 1)}
-			if getb(g, 0) {
+			if getb(g, 0) && geto(g, i) {
 				eps[i].UV = &extrude.ExtrusionPointUV{Point: vector2.New(0, float64(i)), Thickness: 1}
+			}
+			if k := len(path) + i; g.O != nil && k < len(g.O) && g.O[k] {
+				eps[i].Direction = &extrude.ExtrusionPointDirection{Direction: vector3.New(0., 1., 0.)}
 			}
 		}
 		out = extrude.Polygon(geti(g, 0), eps)
@@ -205,6 +228,9 @@ func GenCase(g GenDesc) hx.Case {
 	c := hx.Case{Kind: "gen", Desc: g}
 	if g.Gen == "circle" && geti(g, 0) == 0 {
 		c.FailKey = "circle:zero-sides" // fixes/C02-circle-zero-sides
+	}
+	if g.Gen == "cube_welded" && getb(g, 0) && !geto(g, 1) && (geto(g, 2) || geto(g, 3) || geto(g, 4)) {
+		c.FailKey = "cube:welded-partial-uvs" // fixes/C02-cube-welded-partial-uvs
 	}
 	m, class, msg := RunGenerator(g)
 	if class != "ok" && admissible(g) {
@@ -450,6 +476,7 @@ func RandomGen(r *hx.Rng, big bool) GenDesc {
 	case "cube_welded", "cube_quads":
 		g.F = []float64{float64(r.Range(0, 3)), float64(r.Range(1, 3)), float64(r.Range(1, 3))}
 		g.B = []bool{r.Bool()}
+		g.O = randMask(r, 6)
 	case "quad":
 		g.F = []float64{float64(r.Range(0, 3)), float64(r.Range(1, 3))}
 		g.B = []bool{r.Bool()}
@@ -461,12 +488,14 @@ func RandomGen(r *hx.Rng, big bool) GenDesc {
 		g.I = []int{small()}
 		g.F = []float64{float64(r.Range(1, 3)), float64(r.Range(1, 3))}
 		g.B = []bool{r.Bool(), r.Bool(), r.Bool()}
+		g.O = randMask(r, 3)
 	case "extrude_polygon", "extrude_circle":
 		g.I = []int{small()}
 		g.F = []float64{float64(r.Range(1, 2))}
 		g.B = []bool{r.Bool()}
 		g.M = hx.Pick(r, PathModes)
 		g.P = randPath(r, r.Range(0, 6), g.M)
+		g.O = randMask(r, 2*(len(g.P)/3)) // per point: UV set, explicit direction set
 	case "extrude_line":
 		g.F = []float64{float64(r.Range(0, 2)), float64(r.Range(0, 1))}
 		g.M = hx.Pick(r, PathModes)
@@ -492,6 +521,18 @@ func RandomGen(r *hx.Rng, big bool) GenDesc {
 		g.P2, g.M = randPoints2(r, r.Range(0, 12))
 	}
 	return g
+}
+
+// randMask: every per-element optional field is drawn independently (nil, i.e. "all set", one time in four)
+func randMask(r *hx.Rng, n int) []bool {
+	if r.Chance(1, 4) {
+		return nil
+	}
+	m := make([]bool, n)
+	for i := range m {
+		m[i] = r.Bool()
+	}
+	return m
 }
 
 // SmallGens enumerates the exhaustive small stream: every counted generator on every count 0..max.
@@ -554,6 +595,22 @@ func FixedGens(run *hx.Run) {
 		}
 	}
 	generic := []float64{0, 0, 0, 1, 2, 0, 0, 4, 1}
+	// per-element optional fields set on some elements only
+	for _, g := range []GenDesc{
+		{Gen: "extrude_polygon", I: []int{3}, F: []float64{1}, B: []bool{true}, P: generic, O: []bool{true, false, true}},
+		{Gen: "extrude_polygon", I: []int{4}, F: []float64{1}, B: []bool{true}, P: generic, O: []bool{false, true, true}},
+		{Gen: "extrude_polygon", I: []int{3}, F: []float64{1}, B: []bool{true}, P: generic, O: []bool{true, true, false, false, true, false}},
+		{Gen: "cube_welded", B: []bool{true}, O: []bool{true, false, true, false, true, false}},
+		{Gen: "cube_quads", B: []bool{true}, O: []bool{false, true, false, false, false, true}},
+		{Gen: "cube_quads", B: []bool{true}, O: []bool{false, false, false, false, false, false}},
+		{Gen: "cylinder", I: []int{4}, B: []bool{false, false, true}, O: []bool{true, false, false}},
+		{Gen: "cylinder", I: []int{4}, B: []bool{false, false, true}, O: []bool{false, false, true}},
+		{Gen: "cylinder", I: []int{4}, B: []bool{true, false, true}, O: []bool{true, true, false}},
+	} {
+		run.Count("gen:" + g.Gen)
+		run.Count("gen-optional:mixed")
+		run.Add(GenCase(g))
+	}
 	for _, shape := range [][]float64{{}, {1, 1}, {0, 0, 1, 0}, {0, 0, 0, 0, 1, 1}} {
 		run.Add(GenCase(GenDesc{Gen: "extrude_shape", P: generic, P2: shape, M: "small-stencil"}))
 		run.Add(GenCase(GenDesc{Gen: "extrude_closed_shape", P: generic, P2: shape, M: "small-stencil"}))
